@@ -83,6 +83,25 @@ int main()
       auto with = [&](auto&& f) -> std::string { return g_ov ? f(*g_ov) : f(*g_on); };
       if (op == "oreg") return with([&](auto& w) { return w.reg(atoi(t[1].c_str()), 0x1000 + (uintptr_t)parse_dec(t[2])); });
       if (op == "omove") return with([&](auto& w) { w.o(atoi(t[1].c_str())) = std::move(w.o(atoi(t[2].c_str()))); return std::string("ok"); });
+      if (op == "omovec") return with([&](auto& w) { // move CONSTRUCTION: the destination is a new object built from the source
+        using AP = std::remove_reference_t<decltype(w.o(0))>;
+        int d = atoi(t[1].c_str()), r = atoi(t[2].c_str());
+        if (d == r) return std::string("ok");
+        w.o(d).~AP(); new (w.store[d]) AP(std::move(w.o(r)));
+        return std::string("ok"); });
+      if (op == "ofill") return with([&](auto& w) -> std::string { // register fresh pointers until the sandbox refuses
+        using AP = std::remove_reference_t<decltype(w.o(0))>;
+        uint64_t n = 0, mx = 0; bool zero = false;
+        try {
+          for (;; n++) {
+            if (n > 70000) return "ok n=toomany";
+            auto* leak = new AP(w.sb.get_app_pointer(reinterpret_cast<int*>(0x100000 + n)));
+            uint64_t tk = w.tokval(leak->UNSAFE_sandboxed(w.sb));
+            if (tk == 0) zero = true;
+            if (tk > mx) mx = tk;
+          }
+        } catch (const std::runtime_error&) {}
+        return "ok n=" + std::to_string(n) + " max=" + std::to_string(mx) + " zero=" + (zero ? "1" : "0"); });
       if (op == "ounreg") return with([&](auto& w) { w.o(atoi(t[1].c_str())).unregister(); return std::string("ok"); });
       if (op == "odestroy") return with([&](auto& w) {
         using AP = std::remove_reference_t<decltype(w.o(0))>;
